@@ -17,6 +17,9 @@ var (
 	// simulator never parks a goroutine that holds one.
 	AcquireFn func()
 	ReleaseFn func(site string)
+	// SimLockFn lets a simulator take a lock on behalf of the calling goroutine
+	// (cooperatively, so that it can simulate blocking); it reports whether it did.
+	SimLockFn func(lock any, write bool, site string) bool
 )
 
 // Yield marks a point at which a simulator may park the calling goroutine.
@@ -55,6 +58,17 @@ func Acquire() {
 	if f := AcquireFn; f != nil {
 		f()
 	}
+}
+
+// SimLock is called by instrumented code right before it takes a lock; lock is
+// the address of the expression the Lock/RLock method is called on. It returns
+// true when the simulator has taken the lock already (the caller then skips its
+// own Lock call).
+func SimLock(lock any, write bool, site string) bool {
+	if f := SimLockFn; f != nil {
+		return f(lock, write, site)
+	}
+	return false
 }
 
 // Release is the counterpart of Acquire.
